@@ -32,7 +32,13 @@ import (
 func c18Snapshot(dir string) map[string][]byte {
 	out := map[string][]byte{}
 	filepath.WalkDir(dir, func(p string, d fs.DirEntry, err error) error {
-		if err != nil || d.IsDir() {
+		if err != nil {
+			return nil
+		}
+		if d.IsDir() { // directories count too: relative path + "/"
+			if rel, _ := filepath.Rel(dir, p); rel != "." {
+				out[filepath.ToSlash(rel)+"/"] = nil
+			}
 			return nil
 		}
 		rel, _ := filepath.Rel(dir, p)
